@@ -25,20 +25,18 @@ def one(d):
         rc, o = sh("go build ./...", cwd=wt)
         if rc != 0:
             return d, ["BUILD FAILS " + o[-300:]]
-        def runp(i):
-            pid = "C%02d" % i
-            vd = tempfile.mkdtemp(prefix="edv-"); os.makedirs(vd + "/evidence"); shutil.copy("/verif/known_findings.txt", vd)
-            r, oo = sh(f"/tmp/sc_ed -prop {pid} -tier quick -repo {wt} -verif {vd}", timeout=300)
-            shutil.rmtree(vd, ignore_errors=True)
-            return pid, r, [l[:300] for l in oo.splitlines() if ": violated:" in l or ": undecided:" in l or "panick" in l]
+        # one process for all 20 properties (scrapcheck -matrix: same rules, one load of the tree)
+        r, oo = sh(f"/tmp/sc_ed -matrix -repo {wt} -verif /verif", timeout=600)
+        if "MATRIX done" not in oo:
+            res.append("MATRIX RUN FAILED " + oo[-300:])
         seen = set()
-        with concurrent.futures.ThreadPoolExecutor(max_workers=7) as ex:
-            for pid, r, lines in ex.map(runp, range(1, 21)):
-                if r != 0:
-                    for l in lines:
-                        key = l.split("[")[-1].split(" @ ")[-1][:60]
-                        if key in seen: continue
-                        seen.add(key); res.append(pid + " " + l)
+        for l in oo.splitlines():
+            if not l.startswith("MATRIX C") or (": violated:" not in l and ": undecided:" not in l):
+                continue
+            _, pid, rest = l.split(" ", 2)
+            key = rest.split("[")[-1].split(" @ ")[-1][:60]
+            if key in seen: continue
+            seen.add(key); res.append(pid + " " + rest[:300])
     finally:
         sh(f"git -C /repo worktree remove --force {wt}")
     return d, res
